@@ -42,14 +42,20 @@ ASSUMPTIONS = [
     "peers of handed-over sockets are silent in the scenarios: read/close dispatch belongs to C13/C15",
 ]
 EVIDENCE_NOTES = [
-    "exit_returns is proved as safety + progress: invariant (EXIT/WAKE pending => a writer is about to signal, or "
-    "the loop is past a poll return in this iteration, or the signal is readable), 'a poll attempt with an exit "
-    "pending and no writer in flight never finds nothing', 'the exit test after any wake-up with an exit pending "
-    "leaves the loop', and 'every blocked loop step waits for a mutex whose holder is enabled'; the variant "
-    "(bounded number of loop-thread steps to return) is stated in C14/ProofsExit.v",
+    "exit_returns is mechanised as invariant + progress + variant (DESIGN.md 6/C14): invariant (EXIT/WAKE pending => a "
+    "writer is about to signal, or the loop is past a poll return in this iteration, or the signal is readable), 'a poll "
+    "attempt with an exit pending and no writer in flight never finds nothing', 'the exit test after any wake-up with an "
+    "exit pending leaves the loop', 'a blocked loop step waits for a mutex whose holder is enabled', and the variant "
+    "exit_returns_variant (every loop-thread step decreases rank, other threads raise it by at most 2 per enqueue); the "
+    "closing temporal step (fair schedule + finite scripts => run() returns) is the standard argument and is not mechanised",
     "to_exit / tid are plain ints accessed by several threads (C11 data race); modelled SC and flagged",
     "a wake-up request that completes after the loop's last signal clear-up but before its exit test is not "
     "followed by a wake callback (the loop is leaving): wake_not_lost is stated for a loop that is still in its body",
+    "ref-count of a handed-over context is modelled as the single CAS 1 -> 0 of its release (justified by handover_once: "
+    "every context is released at most once); retains by worker threads belong to C15",
+    "two defects confirmed on the unchanged tree and repaired: fixes/C14-exit-before-run.patch (witness theorem "
+    "exit_returns_refuted_on_unrepaired_code, corpus-exit-before-run-*) and fixes/C14-add-ctx-failure.patch "
+    "(handover_once_refuted_on_unrepaired_code, corpus-add-ctx-failure); the model follows the repaired code",
 ]
 
 
@@ -94,6 +100,16 @@ def _mk(name, be, loopthr, hints, scripts, sched, budget=None):
 
 
 def corpus_cases(ctx):
+    """regression cases: corpus/C14/*.case (written from the list below; files win when present)."""
+    d = os.path.join(V.VERIF, "corpus", ID)
+    if os.path.isdir(d):
+        files = sorted(f for f in os.listdir(d) if f.endswith(".case"))
+        if files:
+            return [V.Case.load(os.path.join(d, f)) for f in files]
+    return _builtin_corpus()
+
+
+def _builtin_corpus():
     cs = []
     for be in ("select", "poll", "epoll"):
         # exit issued by the creating thread before the loop thread's run() has recorded its id
@@ -143,7 +159,7 @@ def _gen_one(rng, name, be):
 
 def generate(rng, tier):
     cases = []
-    per = 350 if tier == "quick" else 6000
+    per = 350 if tier == "quick" else 20000
     for be in ("select", "poll", "epoll"):
         for i in range(per):
             cases.append(_gen_one(rng, "%s-%d" % (be, i), be))
